@@ -10,7 +10,9 @@ import (
 	"reflect"
 	"sort"
 	"strings"
+	"sync"
 
+	"github.com/samsarahq/thunder/graphql"
 	"github.com/samsarahq/thunder/merge"
 )
 
@@ -189,6 +191,55 @@ func OracleC02(res *Result) []Finding {
 			}
 		}
 	}
+	// every computation executes its own query: the result of a subscription's run has exactly the top-level
+	// keys of the query it was created for (a mutation's: of its mutation), a mutation resolver runs only inside
+	// the computation of its own mutation, and at most once per accepted mutate
+	mutRuns := map[int]int{}
+	for i, e := range res.Events {
+		switch e.Kind {
+		case "mutexec":
+			if e.Gen < 0 || e.Gen >= len(v.gens) {
+				break
+			}
+			g := v.gens[e.Gen]
+			if !g.IsMut {
+				add("c02-mutation-executed-by-subscription", "event %d: mutation resolver %s ran inside a computation of subscription %s (generation %d)", i, e.Field, g.ID, g.Gen)
+				break
+			}
+			mutRuns[e.Gen]++
+			if mutRuns[e.Gen] == 2 {
+				add("c02-mutation-ran-twice", "event %d: the mutation of generation %d (%s) executed %s a second time", i, g.Gen, g.ID, e.Field)
+			}
+			if g.Msg >= 0 && g.Msg < len(res.Fed) {
+				if want := queryKeys(MutQueries[res.Fed[g.Msg].Q%len(MutQueries)], true); len(want) == 1 && want[0] != e.Field {
+					add("c02-mutation-ran-foreign-query", "event %d: mutation %s (generation %d) executed %s, its query asks for %s", i, g.ID, g.Gen, e.Field, want[0])
+				}
+			}
+		case "mwend":
+			if e.Err != "" || e.Gen < 0 || e.Gen >= len(v.gens) {
+				break
+			}
+			g := v.gens[e.Gen]
+			if g.Msg < 0 || g.Msg >= len(res.Fed) {
+				break
+			}
+			var want []string
+			if g.IsMut {
+				want = queryKeys(MutQueries[res.Fed[g.Msg].Q%len(MutQueries)], true)
+			} else {
+				want = queryKeys(SubQueries[res.Fed[g.Msg].Q%len(SubQueries)], false)
+			}
+			m, _ := e.Current.(map[string]interface{})
+			var got []string
+			for k := range m {
+				got = append(got, k)
+			}
+			sort.Strings(got)
+			if want != nil && !reflect.DeepEqual(got, want) {
+				add("c02-result-of-foreign-query", "event %d: a computation of %s (generation %d) produced a result with fields %v, its query selects %v", i, g.ID, g.Gen, got, want)
+			}
+		}
+	}
 	// nothing after the unsubscribe was processed
 	for k, o := range res.Fed {
 		if o.Op != "unsubscribe" {
@@ -252,6 +303,35 @@ func OracleC02(res *Result) []Finding {
 		add(p.Sig, "%s", p.Detail)
 	}
 	return fs
+}
+
+var (
+	qkMu sync.Mutex
+	qk   = map[string][]string{}
+)
+
+// queryKeys returns the sorted top-level response keys of a query text (nil if it does not parse).
+func queryKeys(text string, mutation bool) []string {
+	qkMu.Lock()
+	defer qkMu.Unlock()
+	key := text
+	if mutation {
+		key = "M|" + text
+	}
+	if ks, ok := qk[key]; ok {
+		return ks
+	}
+	var ks []string
+	if q, err := graphql.Parse(text, nil); err == nil && q.SelectionSet != nil {
+		if sels, err := graphql.Flatten(q.SelectionSet); err == nil {
+			for _, sel := range sels {
+				ks = append(ks, sel.Alias)
+			}
+			sort.Strings(ks)
+		}
+	}
+	qk[key] = ks
+	return ks
 }
 
 func safeMerge(a, b interface{}) (r interface{}, err error) {
